@@ -289,6 +289,8 @@ type TLG struct {
 	sentinels   map[*ssa.Global]bool
 	paramPost   map[*ssa.Function][]AV // what is known of each integer parameter when the function returns normally
 	paramPostOK map[*ssa.Function][]AV // ... when it returns with a possibly-nil error
+	paramPostT  map[*ssa.Function][]AV // ... when its single boolean result is true (a predicate: validID(id))
+	paramPostF  map[*ssa.Function][]AV // ... when it is false
 	paramT      map[*ssa.Function][]AV
 	fieldT      map[*types.Var]string // integer field -> source description
 	fieldElemT  map[*types.Var]string
@@ -313,7 +315,7 @@ func (c *Ctx) TLG() *TLG {
 	if c.tlg != nil {
 		return c.tlg
 	}
-	t := &TLG{c: c, ret: map[*ssa.Function][]AV{}, retOK: map[*ssa.Function][]AV{}, paramPost: map[*ssa.Function][]AV{}, paramPostOK: map[*ssa.Function][]AV{}, paramT: map[*ssa.Function][]AV{}, fieldT: map[*types.Var]string{},
+	t := &TLG{c: c, ret: map[*ssa.Function][]AV{}, retOK: map[*ssa.Function][]AV{}, paramPost: map[*ssa.Function][]AV{}, paramPostOK: map[*ssa.Function][]AV{}, paramPostT: map[*ssa.Function][]AV{}, paramPostF: map[*ssa.Function][]AV{}, paramT: map[*ssa.Function][]AV{}, fieldT: map[*types.Var]string{},
 		fieldElemT: map[*types.Var]string{}, Sources: map[string]int{}, pure: map[*ssa.Function]bool{}}
 	for _, f := range c.Funcs() {
 		if inPkgs(f, "data/...", "level/block", "level/biome", "level/item", "level/entity") {
@@ -442,21 +444,24 @@ func (t *TLG) Probe(fn *ssa.Function, visit func(in ssa.Instruction, eval func(s
 // ---------------------------------------------------------------- per function
 
 type fnAn struct {
-	t      *TLG
-	fn     *ssa.Function
-	sizes  types.Sizes
-	in     map[*ssa.BasicBlock]tstate
-	visit  map[*ssa.BasicBlock]int
-	ords   map[string]int
-	sinks  map[ssa.Instruction]map[string]*Sink // dedupe across re-visits: keyed by instr+kind
-	retAV  []AV
-	retOK  []AV
-	post   []AV
-	nRet   int
-	postOK []AV
-	nRetOK int
-	feas   map[*ssa.BasicBlock]map[int]bool // predecessor edges over which a state has arrived
-	vals   map[string]ssa.Value             // name -> value for V: entries
+	t            *TLG
+	fn           *ssa.Function
+	sizes        types.Sizes
+	in           map[*ssa.BasicBlock]tstate
+	visit        map[*ssa.BasicBlock]int
+	ords         map[string]int
+	sinks        map[ssa.Instruction]map[string]*Sink // dedupe across re-visits: keyed by instr+kind
+	retAV        []AV
+	retOK        []AV
+	post         []AV
+	nRet         int
+	postOK       []AV
+	nRetOK       int
+	postT, postF []AV
+	nRetT, nRetF int
+	feas         map[*ssa.BasicBlock]map[int]bool   // predecessor edges over which a state has arrived
+	edgeSt       map[*ssa.BasicBlock]map[int]tstate // per predecessor edge of a merge-only block: the state that arrived
+	vals         map[string]ssa.Value               // name -> value for V: entries
 	// per block transient
 	storeCtr int
 	events   []killEvent
@@ -569,6 +574,21 @@ func (t *TLG) analyze(fn *ssa.Function) {
 				}
 				st["V:"+phi.Name()] = a.eval(phi.Edges[idx], st)
 				a.vals[phi.Name()] = phi
+			}
+			if onlyMerges(succ) {
+				if a.edgeSt == nil {
+					a.edgeSt = map[*ssa.BasicBlock]map[int]tstate{}
+				}
+				if a.edgeSt[succ] == nil {
+					a.edgeSt[succ] = map[int]tstate{}
+				}
+				if pi := predIndex(succ, b); pi >= 0 {
+					if old, ok := a.edgeSt[succ][pi]; ok {
+						a.edgeSt[succ][pi] = a.joinState(old, st)
+					} else {
+						a.edgeSt[succ][pi] = st.clone()
+					}
+				}
 			}
 			old, seen := a.in[succ]
 			var nw tstate
@@ -685,6 +705,22 @@ func (t *TLG) analyze(fn *ssa.Function) {
 	}
 	mergePost(t.paramPost, a.post)
 	mergePost(t.paramPostOK, a.postOK)
+	mergePost(t.paramPostT, a.postT)
+	mergePost(t.paramPostF, a.postF)
+}
+
+// onlyMerges: the block consists of phis and its terminator.
+func onlyMerges(b *ssa.BasicBlock) bool {
+	for i, in := range b.Instrs {
+		switch in.(type) {
+		case *ssa.Phi, *ssa.DebugRef:
+		default:
+			if i != len(b.Instrs)-1 {
+				return false
+			}
+		}
+	}
+	return len(b.Preds) > 1
 }
 
 func predIndex(b, pred *ssa.BasicBlock) int {
@@ -1358,6 +1394,16 @@ func (a *fnAn) refine(st tstate, cond ssa.Value, truth bool, b *ssa.BasicBlock) 
 			}
 		}
 		return st
+	case *ssa.Call:
+		// if !r.validID(id) { return }: what the predicate's answer says about its integer arguments
+		if bt, ok := c.Type().Underlying().(*types.Basic); ok && bt.Kind() == types.Bool {
+			if truth {
+				a.applyPost(c, c.Common(), st, a.t.paramPostT)
+			} else {
+				a.applyPost(c, c.Common(), st, a.t.paramPostF)
+			}
+		}
+		return st
 	case *ssa.Phi:
 		// a && / || used as a value: the condition holds through one of the edges
 		// that have been feasible so far
@@ -1370,15 +1416,19 @@ func (a *fnAn) refine(st tstate, cond ssa.Value, truth bool, b *ssa.BasicBlock) 
 				continue
 			}
 			var cand tstate
+			base := st
+			if es, ok := a.edgeSt[b][i]; ok {
+				base = es // what held on this very edge (the block only merges)
+			}
 			if k, ok := e.(*ssa.Const); ok {
 				if k.Value == nil || k.Value.Kind() != constant.Bool || constant.BoolVal(k.Value) != truth {
 					continue
 				}
-				cand = st.clone()
+				cand = base.clone()
 			} else if _, isPhi := e.(*ssa.Phi); isPhi {
-				cand = st.clone()
+				cand = base.clone()
 			} else {
-				cand = a.refine(st.clone(), e, truth, b)
+				cand = a.refine(base.clone(), e, truth, b)
 				if cand == nil {
 					continue
 				}
@@ -1847,6 +1897,43 @@ func (a *fnAn) instr(in ssa.Instruction, st tstate, collect bool) {
 			a.nRet++
 			if okExit {
 				a.nRetOK++
+			}
+			// a predicate (one boolean result): what holds of the parameters when it answers true / false
+			if len(x.Results) == 1 {
+				if bt, ok := x.Results[0].Type().Underlying().(*types.Basic); ok && bt.Kind() == types.Bool {
+					for _, truth := range []bool{true, false} {
+						st2 := a.refine(st.clone(), x.Results[0], truth, x.Block())
+						if st2 == nil {
+							continue
+						}
+						dst, n := &a.postT, &a.nRetT
+						if !truth {
+							dst, n = &a.postF, &a.nRetF
+						}
+						if *dst == nil {
+							*dst = make([]AV, len(a.fn.Params))
+						}
+						for i, p := range a.fn.Params {
+							if !isIntegerType(p.Type(), a.sizes) {
+								continue
+							}
+							av := a.eval(p, st2)
+							var keep []Sym
+							for _, u := range av.UB {
+								if strings.HasPrefix(u.Key, "p:") || strings.HasPrefix(u.Key, "g:") {
+									keep = append(keep, u)
+								}
+							}
+							av.UB = keep
+							if *n == 0 {
+								(*dst)[i] = av
+							} else {
+								(*dst)[i] = joinAV((*dst)[i], av)
+							}
+						}
+						*n++
+					}
+				}
 			}
 		}
 		if len(x.Results) > 0 {
